@@ -836,7 +836,7 @@ def c12(work, v, tier):
     q = tier == "quick"
     tables = [("nest-alias", dict(Caps=[0], Kinds=["AND", "LIST"], Vals=["a", "S", "A", "P"], MaxLen=2, InitOpts=[[], ["nnest"]], Fams=["grow", "opts"],
                                   OptFlags=["nnest"], PushLens=[1, 2], depth=2, walks=200 if q else 10000, wlen=30, fields=C13_FIELDS)),
-              ("xfer-forms", dict(Caps=[0], Vals=["a", "A", "P"], MaxLen=3, Fams=["grow", "transfer"], PushLens=[1], DstCaps=[2], DstOps=["push", "nnest"],
+              ("xfer-forms", dict(Caps=[0], Vals=["a", "S", "A"], MaxLen=3, Fams=["grow", "transfer"], PushLens=[1], DstCaps=[2], DstOps=["push", "nnest"],
                                   depth=2, walks=200 if q else 10000, wlen=30, fields=C15_FIELDS)),
               ("cond-alias", dict(machine="cond", KwArgs=["k"], OpArgs=["Eq"], ExArgs=["nil", "s:v", "S", "A", "P", "C"], CFams=["set", "opts"],
                                   COptFlags=["nnest"], depth=3, walks=200 if q else 10000))]
